@@ -8,6 +8,7 @@ package main
 //   Another client adds / removes / purges messages between commands; the connection is dropped after a random
 //   command (after the reply, without reading the reply, in the middle of a line, or by the idle timeout).
 //   Impl-only oracles (never consult the model): see popShadow.
+//   Several sessions open on ONE mailbox (overlapping DELE sets, QUITs in any order, other clients in between): pop_conc.go, attached to this check.
 
 import (
 	"bufio"
